@@ -149,6 +149,7 @@ type world struct {
 	run     *hx.Run
 	nm      util.Uint160
 	n       int
+	cnt     int // 0, or the snapshot count set by updateSnapshotCount(cnt) as the very first invocation
 	wf      bool
 	nodes   []neotest.SingleSigner
 	nodeKey [][]byte
@@ -175,7 +176,7 @@ func thisDir() string {
 	return filepath.Dir(f)
 }
 
-func newWorld(t testing.TB, run *hx.Run, n int, real bool, np int) *world {
+func newWorld(t testing.TB, run *hx.Run, n int, real bool, np int, cnt int) *world {
 	c := chainx.New(t, n)
 	w := &world{c: c, run: run, n: n, byKey: map[string]neotest.SingleSigner{}, isProbe: map[string]bool{},
 		hasNE: map[string]bool{}, spEpoch: new(big.Int), spCand: map[string]*candEntry{}, spRej: map[string]bool{},
@@ -236,6 +237,17 @@ func newWorld(t testing.TB, run *hx.Run, n int, real bool, np int) *world {
 	if !bytes.Equal(w.nodeKey[0][1:], w.nodeKey[nNodes][1:]) || w.nodeKey[0][0] == w.nodeKey[nNodes][0] {
 		t.Fatalf("N0/N5 are not a parity pair: %x %x", w.nodeKey[0], w.nodeKey[nNodes])
 	}
+	if cnt != 0 {
+		// the deployment whose snapshot count is changed ONCE, before any other invocation of the Netmap contract
+		// (every ring slot still empty, current id 0, epoch 0): a further root of the histories (model: initWith cnt).
+		// Not an operation of the case; its effect is compared with the model through the first observation.
+		w.cnt = cnt
+		res := c.Invoke([]neotest.Signer{c.Alpha}, w.nm, "updateSnapshotCount", int64(cnt))
+		if !res.Halt {
+			run.Count("resize.fault")
+			t.Logf("updateSnapshotCount(%d) on the fresh deployment FAULTed: %s", cnt, res.Fault)
+		}
+	}
 	w.prev = w.observe()
 	return w
 }
@@ -258,7 +270,11 @@ func (w *world) caseAttrs(kind string) []string {
 		}
 		return strings.Join(l, ",")
 	}
-	return []string{kind, fmt.Sprintf("n=%d", w.n), fmt.Sprintf("np=%d", len(w.probes)), "self=" + hx.Hex(w.nm.BytesBE()), "has=" + j(has), "probes=" + j(probes), "presub=" + j(pre)}
+	at := []string{kind, fmt.Sprintf("n=%d", w.n), fmt.Sprintf("np=%d", len(w.probes)), "self=" + hx.Hex(w.nm.BytesBE()), "has=" + j(has), "probes=" + j(probes), "presub=" + j(pre)}
+	if w.cnt != 0 {
+		at = append(at, fmt.Sprintf("count=%d", w.cnt))
+	}
+	return at
 }
 
 func itemInt(it stackitem.Item) *big.Int {
@@ -1374,8 +1390,11 @@ func (g *gen) next() string {
 
 // caseID carries the parameters of the world in the case id itself ("name@n=4,real,np=4"), because replay files
 // written by the check keep the id but not the attributes of the case line.
-func caseID(name string, n int, real bool, np int) string {
+func caseID(name string, n int, real bool, np int, cnt ...int) string {
 	id := fmt.Sprintf("%s@n=%d", name, n)
+	if len(cnt) > 0 && cnt[0] != 0 {
+		id += fmt.Sprintf(",count=%d", cnt[0])
+	}
 	if real {
 		id += ",real"
 	}
@@ -1385,7 +1404,7 @@ func caseID(name string, n int, real bool, np int) string {
 	return id
 }
 
-func parseCase(l string) (id string, attrs []string, n int, real bool, wf bool, np int) {
+func parseCase(l string) (id string, attrs []string, n int, real bool, wf bool, np int, cnt int) {
 	f := strings.Fields(l)
 	id, attrs = f[1], f[2:]
 	n, np = 1, nProbes
@@ -1396,6 +1415,8 @@ func parseCase(l string) (id string, attrs []string, n int, real bool, wf bool, 
 				fmt.Sscanf(a, "n=%d", &n)
 			case strings.HasPrefix(a, "np="):
 				fmt.Sscanf(a, "np=%d", &np)
+			case strings.HasPrefix(a, "count="):
+				fmt.Sscanf(a, "count=%d", &cnt)
 			case a == "real":
 				real = true
 			}
@@ -1423,8 +1444,8 @@ func TestRun(t *testing.T) {
 				if w != nil {
 					flush()
 				}
-				id, attrs, n, real, wf, np := parseCase(l)
-				w = newWorld(t, run, n, real, np)
+				id, attrs, n, real, wf, np, cnt := parseCase(l)
+				w = newWorld(t, run, n, real, np, cnt)
 				w.wf = wf
 				kind := "nonwf"
 				if len(attrs) > 0 {
@@ -1457,7 +1478,7 @@ func TestRun(t *testing.T) {
 		rng := run.Rand(ci)
 		n := []int{1, 4, 7, 1}[ci%4]
 		real := ci%4 == 1 || ci%8 == 3
-		w := newWorld(t, run, n, real, nProbes)
+		w := newWorld(t, run, n, real, nProbes, 0)
 		g := &gen{w: w, rng: rng, mal: ci%5 == 4, big: ci%8 == 6}
 		w.wf = !g.big
 		kind := "wf"
@@ -1499,12 +1520,57 @@ func TestRun(t *testing.T) {
 		rng := run.Rand(1000 + ri)
 		n := []int{1, 7, 4, 1}[ri%4]
 		real := ri%4 == 2
-		w := newWorld(t, run, n, real, nProbes)
+		w := newWorld(t, run, n, real, nProbes, 0)
 		w.wf = true
 		g := &gen{w: w, rng: rng}
 		run.Case(caseID(fmt.Sprintf("s%d.%d.r%d", run.Seed, run.Shard, ri), n, real, nProbes), w.caseAttrs("wf")...)
 		g.ringCase()
 	}
+	// directed resized-ring cases (both tiers): the snapshot count is changed once on the fresh deployment, then
+	// candidates in both lists and ticks that walk over and jump into the epochs around 128 and 256, where the
+	// one-byte / two-byte encodings of e and of e - count change shape
+	for ki, k := range []int{1, 2, 255, 256} {
+		rng := run.Rand(2000 + ki)
+		n := []int{1, 4, 1, 7}[(ki+int(run.Seed))%4]
+		w := newWorld(t, run, n, false, nProbes, k)
+		w.wf = true
+		g := &gen{w: w, rng: rng}
+		run.Case(caseID(fmt.Sprintf("s%d.%d.k%d", run.Seed, run.Shard, k), n, false, nProbes, k), w.caseAttrs("wf")...)
+		g.countCase()
+	}
+}
+
+// countCase: a refused call first (shows the resized deployment as it is), candidates in both lists, then ticks
+// 126..130 and 254..258, one stretch walked epoch by epoch, the other entered by jumps; every tick alone in its block.
+func (g *gen) countCase() {
+	w := g.w
+	g.one("op . h=0 - tick 1")
+	if g.rng.IntN(2) == 0 {
+		g.one(fmt.Sprintf("op . h=0 alpha subscribe %s", hx.Hex(w.probes[0].BytesBE())))
+	}
+	g.addSome(2)
+	tick := func(e int) { g.one(fmt.Sprintf("op . h=0 alpha tick %d", e)) }
+	stretch := func(lo int, walk bool) {
+		if walk {
+			for e := lo; e <= lo+4; e++ {
+				tick(e)
+			}
+			return
+		}
+		// jumps: into the stretch, inside it and out of it
+		es := [][]int{{lo + 2, lo + 4}, {lo + 1, lo + 3}, {lo, lo + 2, lo + 3}, {lo + 2, lo + 3, lo + 4}}[g.rng.IntN(4)]
+		for _, e := range es {
+			tick(e)
+		}
+	}
+	walkFirst := g.rng.IntN(2) == 0
+	stretch(126, walkFirst)
+	if g.rng.IntN(2) == 0 {
+		// change the candidate sets between the stretches
+		g.removeAll(g.rng.IntN(2) == 0, true)
+		g.addSome(1)
+	}
+	stretch(254, !walkFirst)
 }
 
 // ---------------------------------------------------------------- directed ring-wrap cases
